@@ -26,6 +26,7 @@ RULE = ("(a) exhaustive: every condition tree with <= N connective nodes (N=2 qu
         "(c) random depth<=2 trees of comparisons between PARTIALLY ordered attribute values (frozensets, floats with NaN), "
         "where the complement of a<b is not a>=b, and of a predicate whose arguments are attribute VALUES that may be 0; a fifth of the random cases spell the outermost negation as not_(set_of(selection, conjuncts...)) and are evaluated twice, a quarter replace literal operands by the attribute of a nested single-solution an(...) query; (d) Predicate terms (plain and negated) written inside the block of the query (`with an(T(From(d))) as q: ...`), which add themselves to it. "
         "All variables selected. Non-trivial: both c and not c have at least one satisfying assignment.")
+RULE += " Size cases (every tier): the complement over domains of 80-300 objects, self-joins with more than a thousand pairs, 6-9 operands, 5-6 variables; memberships in two long collections (22 and 24 elements) of one owner."
 LEVEL_TEXT = ("Reference-model monitoring plus an oracle-free identity: rows of not_(c) must be the set complement of the rows "
               "of c within the Cartesian product and equal the oracle; not_(not_(c)) must return the rows of c. Bounded "
               "exhaustive over small trees, random beyond. The leaf monitor checks every leaf's truth flag with the "
